@@ -4,7 +4,7 @@ from . import skyb
 
 RULE = ("files of 0..6 blocks (types 0..255 incl. type 0, lengths 0..40 and a few up to 70000 clipped to 65535, "
         "versions 1/2, with/without/bad checksum, stray feature bits), every truncation point inside headers and a sample "
-        "inside bodies, bad magic/version edits, plus the repository fixtures and their truncations; each through the memory "
+        "inside bodies, bad magic/version edits, files beyond 64 KiB and with more than 256 records, plus the repository fixtures and their truncations; each through the memory "
         "and the descriptor route with a script walking all blocks (c,n), looking up several types (fK), reading bodies (b) "
         "and taking views (x). Non-trivial = initialisation succeeded and at least one block was visible.")
 EXPLANATION = "model lines (extracted Coq parser model) and implementation lines must be identical token by token"
@@ -45,6 +45,19 @@ def cases(rng, tier):
     big = skyb.container([(3, bytes(300)), (1, bytes(range(9)))], version=1)
     files.append(("gen-long", big, [(3, b""), (1, b"")]))
     files.append(("gen-claim", b"skyb\x01" + bytes([1, 0xff, 0xff, 1, 2, 3]), [(1, b"")]))
+    # files beyond 64 KiB and with more than 255 / 300 records: offsets and record counts that do not fit 8 / 16 bits
+    for k in range(6 if tier == "thorough" else 2):
+        many = [(rng.choice([3, 6, 7]), bytes(rng.randrange(256) for _ in range(rng.choice([0, 1, 2])))) for _ in range(rng.choice([256, 257, 300]))]
+        many += [(5, b"\x01\x02\x03"), (1, bytes(range(12)))]
+        data = skyb.container(many, version=2, with_crc=(k % 2 == 0))
+        for r in ("mem", "fd"):
+            yield ("file %s %s %s" % (r, hexs(data), "v,f5,c,b,x,f1,c,b,x,f2,c,r,c,f1,c,b"), "many-records")
+        bigb = [(3, bytes(rng.randrange(256) for _ in range(rng.choice([40000, 65535])))), (7, bytes(rng.randrange(256) for _ in range(30000))),
+                (2, bytes([4, 1, 2, 3, 50, 0])), (1, bytes(range(20)))]
+        data = skyb.container(bigb, version=2, with_crc=(k % 2 == 1))
+        for cut in (len(data), len(data) - 1, len(data) - 21, 65536, 65537):
+            for r in ("mem", "fd"):
+                yield ("file %s %s %s" % (r, hexs(data[:cut]), "v,f1,c,b,x,f2,c,b,x,r,c,n,c,n,c,b,n,c,x,n,c"), "beyond-64k")
     for klass, data, bl in files:
         data = bytes(data)
         scs = scripts(rng, bl)
